@@ -20,6 +20,11 @@ Definition step (st : option W) (op : list tok) : option W * list tok :=
   match op with
   | TS name :: args =>
     if name =? "worker" then (Some (mkW tt 3%Z 3 None true), [])
+    else if name =? "burst" then
+      (* n queries written in one go to a fresh worker whose channel buffer holds one answer at a time:
+         each is answered exactly once (one_final_answer), whatever the back-pressure *)
+      match args with [TN n] => (st, [TN n]) | _ => (st, [TS "badop"]) end
+    else if (name =? "end") && match st with None => true | Some _ => false end then (st, [TS "end"])
     else match st with
     | None => (st, [TS "badop"])
     | Some w =>
